@@ -180,8 +180,8 @@ pub fn all() -> Vec<PropDef> {
         PropDef {
             id: "C15",
             level: "exploration",
-            rule: "the real roughenough-server binary is started from generated configurations: the repository's example.cfg (ports rewritten), a pairwise-covering set over {workers>1, health port, client_stats, file/ENV} with batch_size {1,2,63,64}, fault {0,1,50}, status_interval {1,10,600}, defaults left unwritten, an all-decimal-digit seed, then proptest draws over num_workers 1..=16 x the same options; oracle within 10 s: N distinct worker-i threads in /proc, 64*N requests from distinct sockets each answered exactly once (strictly verified when fault = 0), exactly N distinct delegated keys, 3*N sequential health connections each reading the exact HTTP 200 text then EOF while UDP keeps being answered, workers still alive after 1 s, no panic text. Non-trivial = configuration with >= 2 workers, a health port or client_stats; distinct by configuration tuple",
-            assumptions: &["ports are leased exclusively (bound once without SO_REUSE*, lock file); a lost port race is exit 2", "TCP health connections are made sequentially", "SO_REUSEPORT hashing spreads 64*N distinct source ports over all N workers (miss probability < 1e-12)"],
+            rule: "the real roughenough-server binary is started from generated configurations: the repository's example.cfg (ports rewritten), a pairwise-covering set over {workers>1, health port, client_stats, file/ENV} with batch_size {1,2,63,64}, fault {0,1,50}, status_interval {1,10,600}, defaults left unwritten, an all-decimal-digit seed, then proptest draws over num_workers 1..=16 x the same options; oracle within 10 s: N distinct worker-i threads in /proc, 64*N requests from distinct sockets each answered exactly once (strictly verified when fault = 0), exactly N distinct delegated keys, 2*N health connections that are reset or closed unread, a burst of 2*N+1 simultaneous ones, then 3*N sequential health connections each reading the exact HTTP 200 text then EOF while UDP keeps being answered, workers still alive after 1 s, no panic text. Non-trivial = configuration with >= 2 workers, a health port or client_stats; distinct by configuration tuple",
+            assumptions: &["ports are leased exclusively (bound once without SO_REUSE*, lock file); a lost port race is exit 2", "SO_REUSEPORT hashing spreads 64*N distinct source ports over all N workers (miss probability < 1e-12)"],
             shards: s16,
             timeout_s: |t| t.pick(400, 3600),
             run: procs::run_c15,
@@ -210,7 +210,7 @@ pub fn all() -> Vec<PropDef> {
         PropDef {
             id: "C18",
             level: "exploration",
-            rule: "real multi-worker server (num_workers in {1,2,4,8,16}, one value per worker process of the check) under seeded rounds of 1..=64 concurrent closed-loop client threads (classic / IETF / per-client / per-request mix, 20..=300 requests each, think time 0..=2 ms, nonces shared across clients, client_stats off/on, batch_size {1,2,8,64}); oracle per request: exactly one reply, strictly verified for the outstanding request under the single long-term key, no stray datagram; all worker threads alive and no panic text after every round; an unanswered request counts only when the kernel reports zero drops. Non-trivial = round with >= 2 workers, >= 2 clients and replies from >= 2 distinct delegated keys (the kernel really spread the load); distinct by round plan. Schedules are sampled, not controlled",
+            rule: "real multi-worker server (num_workers in {1,2,4,8,16}, one value per worker process of the check) under seeded rounds of 1..=64 concurrent closed-loop client threads (classic / IETF / per-client / per-request mix, 20..=300 requests each, think time 0..=2 ms, nonces shared across clients, client_stats off/on, batch_size {1,2,8,64}); oracle per request: exactly one reply, strictly verified for the outstanding request under the single long-term key, no stray datagram; microsecond midpoints inside [request sent, reply received] on the shared host clock (2 ms tolerance, >= 3 outliers, clock-step guard); all worker threads alive and no panic text after every round; an unanswered request counts only when the kernel reports zero drops. Non-trivial = round with >= 2 workers, >= 2 clients and replies from >= 2 distinct delegated keys (the kernel really spread the load); distinct by round plan. Schedules are sampled, not controlled",
             assumptions: &["OS scheduling and SO_REUSEPORT distribution are sampled (seeded plans, many rounds), not enumerated", "closed loop keeps <= 64 datagrams in flight, below the receive buffer"],
             shards: |t| t.pick(10, 15),
             timeout_s: |t| t.pick(400, 3600),
